@@ -160,6 +160,7 @@ func (idx *index) get(hash uint32, matchKey matchKeyFunc) error {
 
 func (idx *index) findInsertionBucket(newSlot slot, matchKey matchKeyFunc) (*slotWriter, bool, error) {
 	sw := &slotWriter{}
+	var free *slotWriter // First empty slot found in a bucket followed by overflow buckets.
 	it := idx.newBucketIterator(idx.bucketIndex(newSlot.hash))
 	for {
 		b, err := it.next()
@@ -175,8 +176,17 @@ func (idx *index) findInsertionBucket(newSlot slot, matchKey matchKeyFunc) (*slo
 			sl := b.slots[i]
 			if sl.offset == 0 {
 				// Found an empty slot.
+				if free != nil {
+					break
+				}
 				sw.slotIdx = i
-				return sw, false, nil
+				if b.next == 0 {
+					return sw, false, nil
+				}
+				// The key may still be stored in one of the overflow buckets,
+				// use the empty slot only if the key is not found there.
+				free = &slotWriter{bucket: &b, slotIdx: i}
+				break
 			}
 			if newSlot.hash != sl.hash {
 				continue
@@ -194,6 +204,9 @@ func (idx *index) findInsertionBucket(newSlot slot, matchKey matchKeyFunc) (*slo
 		}
 		if b.next == 0 {
 			// No more buckets in the chain.
+			if free != nil {
+				return free, false, nil
+			}
 			sw.slotIdx = i
 			return sw, false, nil
 		}
